@@ -320,6 +320,7 @@ def run_lines(cmd, lines, timeout, env=None, label=""):
     outs = []
     i = 0
     guard = 0
+    timeouts = 0
     while i < len(lines):
         chunk = lines[i:]
         rc, so, se, dt = run(cmd, inp="\n".join(chunk) + "\n", timeout=timeout, env=env)
@@ -334,6 +335,12 @@ def run_lines(cmd, lines, timeout, env=None, label=""):
         outs.append("CRASH " + ("timeout" if rc == 124 else f"rc={rc} {tail}"))
         i = len(outs)
         guard += 1
+        if rc == 124:
+            timeouts += 1
+        if timeouts >= 2:
+            # the harness keeps hanging (typical of a change that makes the code block): do not grind through the rest
+            outs.extend(["CRASH timeout-abort"] * (len(lines) - len(outs)))
+            break
         if guard > 50:
             outs.extend(["CRASH too-many-crashes"] * (len(lines) - len(outs)))
             break
